@@ -32,7 +32,7 @@ type Speller interface {
 	Uint(kind string, v uint64) string // also B
 	Float(kind string, v float64) string
 	Bool(v bool) string
-	ASCII(s string) []Tok   // tokens denoting the characters of s (s non-empty)
+	ASCII(s string) []Tok         // tokens denoting the characters of s (s non-empty)
 	AVarSize(min, max int) string // "" for none
 	ListSize(n int, determined bool) string
 	ArraySize(kind string, n int) string
